@@ -183,4 +183,40 @@ theorem rb_run (cfg : Cfg) : ∀ (l : List (Event × Bool)) (t u : Store) (D : L
     · cases h
     · cases h
 
+theorem dirtyAll_snoc (cfg : Cfg) : ∀ (l : List (Event × Bool)) (s : Store) (D : List String) (s' : Store) (x : Event × Bool),
+    addAllRb cfg s l = .ok s' →
+    dirtyAll cfg s D (l ++ [x]) = dirtyAll cfg s' (dirtyAll cfg s D l) [x]
+  | [], s, D, s', x, h => by
+    simp only [addAllRb] at h; cases h; rfl
+  | (e, rb) :: rest, s, D, s', x, h => by
+    simp only [addAllRb] at h
+    simp only [List.cons_append, dirtyAll]
+    split at h
+    · rename_i s1 hs1
+      simp only [hs1]
+      exact dirtyAll_snoc cfg rest s1 _ s' x h
+    · cases h
+    · cases h
+
+theorem addAllRb_snoc (cfg : Cfg) : ∀ (l : List (Event × Bool)) (s s' : Store) (x : Event × Bool),
+    addAllRb cfg s l = .ok s' → addAllRb cfg s (l ++ [x]) = addAllRb cfg s' [x]
+  | [], s, s', x, h => by simp only [addAllRb] at h; cases h; rfl
+  | (e, rb) :: rest, s, s', x, h => by
+    simp only [addAllRb] at h
+    rw [List.cons_append]
+    rw [addAllRb]
+    split at h
+    · rename_i s1 hs1
+      exact addAllRb_snoc cfg rest s1 s' x h
+    · cases h
+    · cases h
+
+/-- a committed Add cleans the key it touches -/
+theorem committed_cleans (cfg : Cfg) (l : List (Event × Bool)) (s s' s'' : Store) (D : List String) (e : Event) (k : String)
+    (h : addAllRb cfg s l = .ok s') (ha : add cfg s' e = .ok s'') (hk : touched cfg s' e = some k) :
+    k ∉ dirtyAll cfg s D (l ++ [(e, false)]) := by
+  rw [dirtyAll_snoc cfg l s D s' _ h]
+  simp only [dirtyAll, Bool.false_eq_true, if_false, ha, dirtyStep, hk]
+  simp
+
 end Nuts.C10
